@@ -47,7 +47,7 @@ def rows(lo, hi):
 
 def main():
     text = []
-    for title, lo, hi in (('Second round', 3, 4), ('Third round', 5, 6)):
+    for title, lo, hi in (('Second round', 3, 4), ('Third round', 5, 6), ('Fourth round', 7, 8)):
         r, st = rows(lo, hi)
         text.append('**%s: %d changes** — %d detected by the check as it stood, %d after it was strengthened, %d reported without a '
                     'failing input, %d not detected.\n' % (title, st['n'], st['first'], st['after'], st['nfi'], st['missed']))
